@@ -683,3 +683,45 @@ Example self_example :
   exists rs, insert_tree ex_g ex_chain ex_pb 50 SELF ex_ins ex_host = Ok rs /\ rs <> [] /\
              forallb (insertedb ex_g ex_host ex_ins) rs = true.
 Proof. eexists. split; [vm_compute; reflexivity|]. split; [discriminate | vm_compute; reflexivity]. Qed.
+
+(* ---------- an open node must carry a nonterminal ---------- *)
+(* A node with children None (open) whose label is not a nonterminal - e.g. the terminals
+   "<hr />", "<a b>", "< >", "<", ">", "<a", which only LOOK like nonterminals - makes a tree
+   invalid, wherever it sits; so no such tree satisfies `inserted`, and the executable
+   acceptance procedures reject it. *)
+Lemma open_terminal_not_wf g l i ks : is_nt l = false -> ~ wf_tree g (Node l i true ks).
+Proof. intros Hl H. inversion H; subst. congruence. Qed.
+
+Theorem open_terminal_rejected g host ins r p l i ks :
+  is_nt l = false -> subtree r p = Some (Node l i true ks) -> ~ inserted g host ins r.
+Proof.
+  intros Hl Hs (Hwf & _). eapply open_terminal_not_wf; [exact Hl|]. eapply wf_subtree; eassumption.
+Qed.
+
+Corollary open_terminal_rejectedb g host ins r p l i ks :
+  is_nt l = false -> subtree r p = Some (Node l i true ks) ->
+  insertedb g host ins r = false /\ wf_treeb g r = false.
+Proof.
+  intros Hl Hs. split.
+  - destruct (insertedb g host ins r) eqn:E; [|reflexivity].
+    apply insertedb_spec in E. exfalso. eapply open_terminal_rejected; eassumption.
+  - destruct (wf_treeb g r) eqn:E; [|reflexivity]. apply wf_treeb_spec in E.
+    exfalso. eapply open_terminal_not_wf; [exact Hl|]. eapply wf_subtree; eassumption.
+Qed.
+
+(* the look-alike terminals of the correspondence grammars are not nonterminals for the model
+   of helpers.is_nonterminal:  "<hr />"  "<a b>"  "< >"  "<"  ">"  "<a" *)
+Example lookalike_terminals :
+  forallb (fun s => negb (is_nt s))
+    [[60;104;114;32;47;62]; [60;97;32;98;62]; [60;32;62]; [60]; [62]; [60;97]]%N = true
+  /\ is_nt [60;97;62]%N = true.
+Proof. split; vm_compute; reflexivity. Qed.
+
+Theorem open_terminal_rejected_all g host ins r p l i ks :
+  is_nt l = false -> subtree r p = Some (Node l i true ks) ->
+  ~ inserted g host ins r /\ insertedb g host ins r = false /\ wf_treeb g r = false.
+Proof.
+  intros Hl Hs. split.
+  - exact (open_terminal_rejected g host ins r p l i ks Hl Hs).
+  - exact (open_terminal_rejectedb g host ins r p l i ks Hl Hs).
+Qed.
